@@ -44,8 +44,8 @@ META = {
         '(an over-approximation of all histories of any length).'),
     'functions_encoded': ['numdifftools.extrapolation.EpsAlg.__call__', 'numdifftools.extrapolation.Dea.__init__/limexp/'
                           '__call__/_dea/_shift_table/_update_res3la', 'numdifftools.extrapolation.dea3 (comparison)'],
-    'bounds': {'quick': 'EpsAlg k<=2 transients (5 terms), Shanks table up to 5 terms; Dea limexp in {3,5,7}',
-               'thorough': 'EpsAlg as quick; Dea limexp odd 3..9'},
+    'bounds': {'quick': 'EpsAlg k<=2 transients (5 terms), Shanks table up to 5 terms; Dea limexp in {3,4,5,7}',
+               'thorough': 'EpsAlg as quick; Dea limexp 3, 4, 5, 6, 7, 9'},
     'outside_claim': ['EpsAlg on the degenerate branch (a vanishing table difference) and beyond k=2 (k=3 does not finish: > 25 min per obligation)',
                       'Dea limexp > 9 (7 quick); agreement of Dea with the epsilon table beyond limexp 5 / on paths where a guard fired; finiteness in IEEE arithmetic'],
     'stubs': ['module global np -> symbolic numpy proxy', 'builtin max -> merged symbolic max (If term)',
@@ -64,9 +64,10 @@ def jobs(tier, seed):
     for k in (1, 2):
         out.append(('epsalg-transients-k%d' % k, dict(kind='eps_geo', k=k, limexp=0)))
     out.append(('epsalg-shanks-table', dict(kind='eps_shanks', k=2, limexp=0)))
-    for lim in (range(3, 10, 2) if th else (3, 5, 7)):
-        # every control state that satisfies the invariant n <= limexp-1 (reachability is decided in postprocess)
-        for n in range(0, lim):
+    for lim in ((3, 4, 5, 6, 7, 9) if th else (3, 4, 5, 7)):
+        # every control state that satisfies the invariant n <= L-1, L = the table size (an even limexp is rounded up to the
+        # next odd number); reachability is decided in postprocess
+        for n in range(0, 2 * (lim // 2) + 1):
             for nr in range(0, 4):
                 if (n < 3 and nr > n) and not (n <= 2):
                     continue
@@ -307,7 +308,7 @@ def dea_state(job, ex, limexp, n, nr):
     import json
     eps5 = sn.ratval(Fraction(5, 2 ** 52))
     d0 = ex.Dea(limexp=limexp)
-    L = d0.limexp
+    L = 2 * (limexp // 2) + 1         # table size for the requested limexp (even values are rounded up)
     size = len(d0.epstab)
     job.confirm('table-size', size == L + 5)
     paths, explorer = one_call(ex, limexp, n, nr)
@@ -682,7 +683,7 @@ def concrete_failures(limexp, length=200):
     out = {}
     for name, f in families().items():
         d = ex.Dea(limexp=limexp)
-        L = d.limexp
+        L = 2 * (limexp // 2) + 1
         tail0 = None
         for i in range(length):
             try:
